@@ -74,8 +74,9 @@ def part(run: Run, rng, cfg: str, tier: str, deadline: float, first_id: int) -> 
             continue
         seen_env.add(env)
         seqs = list(cc.label_sequences(model, n, 2))
-        if quick and env != 'plain':
-            seqs = rng.sample(seqs, min(len(seqs), 300))
+        if quick:
+            cap = 300 if env != 'plain' else 6000 if cfg == IMAP_CFG else 3000
+            seqs = rng.sample(seqs, min(len(seqs), cap))
         for labels in seqs:
             if time.time() > deadline:
                 info['seq_len2_cut'] = True
@@ -155,14 +156,15 @@ def main(tier: str) -> int:
     run.notes['exhaustive_scope'] = (
         'every (state, input) pair of the two Conn_c09 graphs that the server can be '
         'driven to, with identity probes after each input; every sequence of two inputs '
-        'from the configuration without TLS (the TLS-required ones sampled in the quick '
-        'tier)')
-    if sieve['tour']['uncovered']:
+        'from the IMAP configuration without TLS (the others sampled in the quick tier)')
+    unc += sieve['tour']['uncovered']
+    run.cov['exhaustive'] = unc == 0
+    if sieve['tour']['pairs_in_states_the_server_never_enters']:
         run.notes['sieve_unrealised'] = (
-            f"{sieve['tour']['uncovered']} (state, input) pairs of the sieve graph start "
-            'from an initial state the server never is in: the model leaves open whether a '
-            'local peer is offered mechanisms before STARTTLS; the ManageSieve listener '
-            'does not offer them')
+            'the model leaves open (a) whether a local peer is offered mechanisms before '
+            'STARTTLS and (b) whether an admin who names another user acts as that user or '
+            'as himself; the ManageSieve listener offers none and ignores the authorization '
+            'identity, so the model states behind the other choice are never entered')
     return run.finish()
 
 
